@@ -137,6 +137,11 @@ def check(prop, tier):
     if fst["tlc_errors"] or fst["unfinished"] or [f for f in fr["findings"] if f["clause"].startswith("B_")]:
         common.machinery("fix-run traces: %s %s" % (fst["tlc_errors"][:2], fst["unfinished"][:3]))
     mine = [f for f in r["findings"] + fr["findings"] if f["property"] == prop]
+    # "any run without --fix leaves the file untouched", on multi-file / multi-job invocations (spec/Main.tla)
+    import batchfam
+
+    bf, binfo = batchfam.extra_findings(prop, tier)
+    mine += bf
     known_hits, new = F.split_known(mine, prop)
     rc = common.report(prop, known_hits, new, lambda f: F.write_replay(prop, f))
     cov = {
@@ -159,6 +164,7 @@ def check(prop, tier):
         "model_drift": st["drift"],
         "pass_order_in_code": st["pass_order"],
         "fix_run_traces": fst["traces"],
+        "command_line_model": binfo,
         "from_cache": [r.get("cached", False), fr.get("cached", False)],
         "collection_wall_s": st["wall"],
     }
